@@ -63,4 +63,13 @@ func init() {
 		Bounds:  map[string]string{"quick": "all 16 key configurations x any algorithm string", "thorough": "same"},
 		Outside: []string{"that the signature verifies after serialisation (canonicalisation, digest, RSA): dependency"},
 	})
+	reg(&PropSpec{ID: "C09",
+		Harnesses: []HarnessSpec{
+			{Name: "VH_C09_decrypt_bytes", Replay: "native", Panics: true, Unwind: 80, QuickOnly: true},
+			{Name: "VH_C09_decrypt_bytes_deep", Replay: "native", Panics: true, Unwind: 80, Thorough: true},
+			{Name: "VH_C09_decrypt_symkey", Replay: "native", Panics: true},
+		},
+		Bounds:  map[string]string{"quick": "ciphertext 0..64 bytes with arbitrary post-decryption content; any algorithm / digest identifiers; inline or detached EncryptedKey; SP certificate list empty or not; RSA or non-RSA private key", "thorough": "same"},
+		Outside: []string{"panics inside etree / encoding/xml / flate / goxmldsig on arbitrary bytes (dependency code)"},
+	})
 }
